@@ -1,1 +1,51 @@
-From GV Require Import Pool.Model Pool.Observe Pool.Monitors.
+From GV Require Import Pool.Model Pool.Observe Pool.Monitors Pool.Reduce Pool.InvC02.
+
+(* C02: a call that is routed by load (no affinity key, or a key nobody is bound
+   to, and not a round-robin BIND) is placed on a least-busy channel of its
+   picker's READY snapshot, and after every operation every channel's stream
+   counter equals the number of calls placed on it and not yet finished.
+   For every history (harness-legal or not) and every map-iteration oracle.
+   Guard: fewer than 2^31 picks are made (streamsCnt is an int32). *)
+Theorem C02_holds : forall raw ops,
+  Forall (fun s => Z.of_nat (length (b_picks s)) < 2147483648)%Z (run_states raw init_bal ops) ->
+  monitor P02 raw (observe init_bal) (run raw init_bal ops) = true.
+Proof. exact C02_holds_proof. Qed.
+Print Assumptions C02_holds.
+
+(* non-vacuity: least-busy placement over two channels, growth at the watermark, completions *)
+Example c02_history :
+  let raw := Some (mkConfig 2 3 2 false 0 0 false []) in
+  let ops := [(OpResolver 1 CfgVal, []); (OpConnState 0 Ready, []); (OpConnState 1 Ready, [1; 0]%nat);
+              (OpPick 1 0 false [] None false, []); (OpPick 1 0 false [] None false, []);
+              (OpPick 1 0 false [] None false, []); (OpDone 0 DOk [], []);
+              (OpPick 1 0 false [] None false, []); (OpPick 1 0 false [] None false, []);
+              (OpPick 1 0 false [] None false, []); (OpDone 2 DErr [], [])] in
+  map ev_ret (run raw init_bal ops) =
+    [RNone; RNone; RNone; RPicked 1; RPicked 0; RPicked 1; RNone; RPicked 1; RPicked 0; RNoSubConn; RNone] /\
+  map (fun s => map sl_streams (b_slots s)) (run_states raw init_bal ops) =
+    [[]; [0; 0]; [0; 0]; [0; 0]; [0; 1]; [1; 1]; [1; 2]; [1; 1]; [1; 2]; [2; 2]; [2; 2; 0]; [2; 1; 0]]%Z /\
+  monitor P02 raw (observe init_bal) (run raw init_bal ops) = true.
+Proof. vm_compute. repeat split; reflexivity. Qed.
+
+(* an illegal history (Done on a call that is still waiting, answered RBadOp) is covered too *)
+Example c02_illegal_history :
+  let raw := Some (mkConfig 2 4 1 false 0 0 true [(1%N, mkMcfg BIND true)]) in
+  let ops := [(OpResolver 1 CfgVal, []); (OpConnState 0 Ready, []); (OpPick 0 1 true [] None false, []);
+              (OpPick 0 1 true [] None false, []); (OpDone 1 DOk [5%N], []); (OpConnState 1 Ready, []);
+              (OpDone 1 DOk [6%N], []); (OpDone 0 DOk [], [])] in
+  map ev_ret (run raw init_bal ops) = [RNone; RNone; RPicked 0; RBlocked; RBadOp; RNone; RNone; RNone] /\
+  monitor P02 raw (observe init_bal) (run raw init_bal ops) = true.
+Proof. vm_compute. split; reflexivity. Qed.
+
+(* the monitor rejects a load-routed call placed on the busier channel *)
+Example c02_bad_not_least_busy :
+  let o1 := mkObs true 1 2 0 0 Ready [] [] [(0%N, Ready); (1%N, Ready)] [(0%N, 0%nat); (1%N, 1%nat)]
+                  [mkSlot 0 0 1 0 0 false 0; mkSlot 1 0 0 0 0 false 0]
+                  4294967295 [] false (PSnap [0; 1]%nat) 1 0 true in
+  let o2 := mkObs true 1 2 0 0 Ready [] [] [(0%N, Ready); (1%N, Ready)] [(0%N, 0%nat); (1%N, 1%nat)]
+                  [mkSlot 0 0 2 0 0 false 0; mkSlot 1 0 0 0 0 false 0]
+                  4294967295 [] false (PSnap [0; 1]%nat) 1 0 true in
+  mon_from P02 None (mkMstate [PSnap [0; 1]%nat] (Some (Ready, PSnap [0; 1]%nat))
+                              [mkMpick 0 BOUND 0 false true None false 0 PPlaced] [] [] [] false (Some None) 0) o1
+    [mkEvent (OpPick 0 0 false [] None false) [] (RPicked 0) [] (Some o2)] = false.
+Proof. vm_compute. reflexivity. Qed.
